@@ -317,6 +317,14 @@ func walkF14bSubscribe() sx.V {
 	return walkSx(0, 1, []int{100}, ops)
 }
 
+// the first registered waiter of a pool (tgt 7 at head 5) survives two callers that are
+// satisfied at once (tgt 5, 3) and then receives head 7
+func walkFirstWaiter() sx.V {
+	return walkSx(0, 1, []int{7, 5, 3}, []sx.V{op2("sethead", 0, 5), op0("notify"), op1("sub", 0), op0("state"),
+		op1("sub", 1), op1("recv", 1), op1("unsub", 1), op0("state"), op1("sub", 2), op1("recv", 2), op1("unsub", 2), op0("state"),
+		op2("sethead", 0, 7), op0("notify"), op0("state"), op1("recv", 0), op1("unsub", 0), op0("state")})
+}
+
 func genC13Walks(c *Ctx, f *c13Fails) {
 	r := c.R
 	// hand-written scenarios
@@ -353,6 +361,41 @@ func genC13Walks(c *Ctx, f *c13Fails) {
 	}
 	for _, s := range fixed {
 		c.Emit("c13.walk", s.in, s.class)
+	}
+	// the first waiter of a pool's lifetime keeps waiting while callers that are satisfied at
+	// once come and go (each runs the deferred unsubscribe with the id subscribe gave it: 0)
+	c.Emit("c13.walk", walkFirstWaiter(), "walk|first-waiter|fixed")
+	c.Emit("c13.walk", walkSx(0, 1, []int{1, 0}, []sx.V{op1("sub", 0), op1("sub", 1), op1("recv", 1), op1("unsub", 1), op0("state"),
+		op2("sethead", 0, 1), op0("notify"), op0("state"), op1("recv", 0), op1("unsub", 0), op0("state")}), "walk|first-waiter|fresh-pool")
+	nfw := c.Scale(40, 600)
+	for i := 0; i < nfw; i++ {
+		nconns := 1 + r.Intn(2)
+		h0 := r.Intn(4)
+		nb := 1 + r.Intn(2)
+		tgtA := h0 + 1 + r.Intn(2)
+		tgts := []int{tgtA}
+		for k := 0; k < nb; k++ {
+			tgts = append(tgts, r.Intn(h0+1))
+		}
+		var ops []sx.V
+		if h0 > 0 {
+			ops = append(ops, op2("sethead", 0, h0))
+			if r.Chance(70) {
+				ops = append(ops, op0("notify"))
+			}
+		}
+		if r.Chance(20) {
+			ops = append(ops, op0("tick"))
+		}
+		ops = append(ops, op1("sub", 0))
+		for k := 1; k <= nb; k++ {
+			ops = append(ops, op1("sub", k), op1("recv", k), op1("unsub", k))
+			if r.Chance(50) {
+				ops = append(ops, op0("state"))
+			}
+		}
+		ops = append(ops, op0("notify"), op0("state"), op2("sethead", 0, tgtA+r.Intn(2)), op0("notify"), op0("state"), op1("recv", 0), op1("unsub", 0), op0("state"))
+		c.Emit("c13.walk", walkSx(r.Intn(2), nconns, tgts, ops), fmt.Sprintf("walk|first-waiter|h%d|b%d", minInt(h0, 1), nb))
 	}
 	// bursts of head updates against the 10-slot buffer
 	for _, k := range []int{9, 10, 11} {
@@ -461,7 +504,12 @@ func genC13Walks(c *Ctx, f *c13Fails) {
 					ops = append(ops, op0("tick"))
 				}
 			case k < 9:
-				ops = append(ops, op1("sub", r.Intn(nw)))
+				w := r.Intn(nw)
+				ops = append(ops, op1("sub", w))
+				// a caller that is (probably) satisfied at once receives and returns right away
+				if tgts[w] <= heads[0] && r.Chance(60) {
+					ops = append(ops, op1("recv", w), op1("unsub", w))
+				}
 			case k < 11:
 				ops = append(ops, op1("recv", r.Intn(nw)))
 			default:
@@ -503,6 +551,9 @@ const (
 // best connection keep arriving until the caller has returned (timeout after
 // waitShort, or cancellation).
 func execC13Wait(in sx.V) sx.V {
+	if len(in.List) == 4 && in.List[2].K == sx.KN {
+		return execC13Wait2(in) // the two-caller shape (tgt0 tgt1 h0 heads)
+	}
 	res, took := runWait(in)
 	lastWaitTook = took
 	return res
@@ -644,6 +695,133 @@ func genC13Waits(c *Ctx, f *c13Fails) {
 		}
 		class := "wait|random"
 		emit(waitSx(tgt, h0, heads, r.Chance(20)), class)
+	}
+}
+
+// c13.wait, two-caller shape: (tgt0 tgt1 h0 ((conn head) ...)) -> (res0 res1)
+// Two concurrent callers of the real WaitMasterchainSeqno on a fresh pool under the
+// real Run loop (connection 0 is the best one, head h0): caller 0 first - it is the
+// first waiter ever registered if tgt0 > h0 -, then caller 1 (if it is satisfied at
+// once it returns, running its deferred unsubscribe, before any head arrives), then
+// the heads one by one.
+func execC13Wait2(in sx.V) sx.V {
+	tgt := []uint32{uint32(in.List[0].U64()), uint32(in.List[1].U64())}
+	h0 := uint32(in.List[2].U64())
+	p, conns, _ := newWalkPool(0, 2)
+	ctx, stop := context.WithCancel(context.Background())
+	defer stop()
+	go p.Run(ctx)
+	if h0 > 0 {
+		conns[0].SetMasterHead(h0)
+	}
+	for k := 0; k < 200 && p.VerifUpdateBufferLen() > 0; k++ {
+		time.Sleep(time.Millisecond)
+	}
+	time.Sleep(2 * time.Millisecond)
+	sufficient := []bool{h0 >= tgt[0], h0 >= tgt[1]}
+	for _, ch := range in.List[3].List {
+		if ch.List[0].I() == 0 {
+			for w := range tgt {
+				if uint32(ch.List[1].U64()) >= tgt[w] {
+					sufficient[w] = true
+				}
+			}
+		}
+	}
+	errs := make([]error, 2)
+	done := make([]chan struct{}, 2)
+	registered := 0
+	for w := 0; w < 2; w++ {
+		w := w
+		timeout := waitShort
+		if sufficient[w] {
+			timeout = waitLong
+		}
+		done[w] = goStep(func() { errs[w] = p.WaitMasterchainSeqno(context.Background(), tgt[w], timeout) })
+		// wait until this caller is inside: registered, or (satisfied at once) back
+		if h0 >= tgt[w] {
+			finished(done[w], waitLong)
+		} else {
+			registered++
+			for k := 0; k < 2000 && p.VerifWaitListLen() != registered; k++ {
+				if finished(done[w], 0) {
+					break
+				}
+				time.Sleep(500 * time.Microsecond)
+			}
+		}
+	}
+	for _, ch := range in.List[3].List {
+		conns[ch.List[0].I()].SetMasterHead(uint32(ch.List[1].U64()))
+		time.Sleep(3 * time.Millisecond)
+	}
+	out := make([]sx.V, 2)
+	for w := 0; w < 2; w++ {
+		switch {
+		case !finished(done[w], waitLong+time.Second):
+			out[w] = sx.A("hang")
+		case errs[w] == nil:
+			out[w] = sx.A("nil")
+		default:
+			out[w] = sx.A("timeout")
+		}
+	}
+	return sx.L(out...)
+}
+
+func wait2Sx(t0, t1, h0 int, heads [][2]int) sx.V {
+	hs := make([]sx.V, len(heads))
+	for i, h := range heads {
+		hs[i] = sx.L(sx.Nat(h[0]), sx.Nat(h[1]))
+	}
+	return sx.L(sx.Nat(t0), sx.Nat(t1), sx.Nat(h0), sx.L(hs...))
+}
+
+func genC13Waits2(c *Ctx, f *c13Fails) {
+	r := c.R
+	emit := func(in sx.V, class string) {
+		res := c.Emit("c13.wait", in, class)
+		// oracle (the property itself): a caller whose target the best connection reaches in
+		// time returns nil, the others an error
+		tgt := []int{in.List[0].I(), in.List[1].I()}
+		for w := 0; w < 2; w++ {
+			suff := in.List[2].I() >= tgt[w]
+			for _, ch := range in.List[3].List {
+				if ch.List[0].I() == 0 && ch.List[1].I() >= tgt[w] {
+					suff = true
+				}
+			}
+			want := "timeout"
+			if suff {
+				want = "nil"
+			}
+			if got := res.List[w].Atom; got != want {
+				f.fail("c13.wait", in, "wait-lost-head", fmt.Sprintf("caller %d of two concurrent WaitMasterchainSeqno calls (target %d) returned %s, the best connection's heads demand %s", w, tgt[w], got, want))
+			}
+		}
+	}
+	// the first waiter of the pool's lifetime + a caller satisfied at once + the head arrives
+	emit(wait2Sx(6, 5, 5, [][2]int{{0, 6}}), "wait2|first-waiter")
+	emit(wait2Sx(1, 0, 0, [][2]int{{0, 1}}), "wait2|first-waiter-fresh")
+	emit(wait2Sx(7, 3, 5, [][2]int{{0, 6}, {0, 7}}), "wait2|first-waiter-two-heads")
+	emit(wait2Sx(6, 7, 5, [][2]int{{0, 6}, {0, 7}}), "wait2|both-wait")
+	emit(wait2Sx(6, 9, 5, [][2]int{{0, 6}}), "wait2|second-times-out")
+	n := c.Scale(16, 160)
+	for i := 0; i < n; i++ {
+		h0 := r.Intn(5)
+		t0 := h0 + r.Intn(3)
+		t1 := r.Intn(h0 + 3)
+		var heads [][2]int
+		cur := []int{h0, 0}
+		for j := r.Intn(4); j > 0; j-- {
+			cn := 0
+			if r.Chance(25) {
+				cn = 1
+			}
+			cur[cn] += r.Intn(3)
+			heads = append(heads, [2]int{cn, cur[cn]})
+		}
+		emit(wait2Sx(t0, t1, h0, heads), "wait2|random")
 	}
 }
 
@@ -799,6 +977,120 @@ func reproTimeoutRestarts() (bool, string) {
 		T, T/3, 6*T, lateAt6T, ret.Round(10*time.Millisecond))
 }
 
+// stress under the real Run loop (support for pool_never_blocks; no particular
+// interleaving can be forced from outside): the best connection publishes a stream of
+// heads while 8 callers arrive and leave (3 of 4 calls satisfied at once, 1 of 4 waits
+// for the next head with a 20 ms timeout), updateBest runs every 20 ms.  A call that
+// stays inside the pool for more than 5 s means the pool is blocked.
+func reproPoolStuck() (bool, string) {
+	const (
+		waiters     = 8
+		callTimeout = 20 * time.Millisecond
+		stuckAfter  = 5 * time.Second
+		stressFor   = 1500 * time.Millisecond
+	)
+	p := pool.New(pool.BestPingStrategy)
+	rc := p.VerifAddRealConn(0)
+	p.VerifSetUpdateInterval(20 * time.Millisecond)
+	ctx, cancel := context.WithCancel(context.Background())
+	defer cancel()
+	go p.Run(ctx)
+	var stop atomic.Bool
+	var startedAt [waiters + 1]atomic.Int64
+	var calls [waiters + 1]atomic.Int64
+	finishedAll := make(chan struct{}, waiters+1)
+	go func() {
+		for seqno := uint32(1); !stop.Load(); seqno++ {
+			startedAt[0].Store(time.Now().UnixNano())
+			rc.SetMasterHead(seqno)
+			startedAt[0].Store(0)
+			calls[0].Add(1)
+			if seqno%64 == 0 {
+				time.Sleep(time.Millisecond)
+			}
+		}
+		finishedAll <- struct{}{}
+	}()
+	for i := 1; i <= waiters; i++ {
+		go func(i int) {
+			for n := 0; !stop.Load(); n++ {
+				var seqno uint32
+				if n%4 == 0 {
+					seqno = rc.Conn().MasterHead().Seqno + 1
+				}
+				startedAt[i].Store(time.Now().UnixNano())
+				_ = p.WaitMasterchainSeqno(context.Background(), seqno, callTimeout)
+				startedAt[i].Store(0)
+				calls[i].Add(1)
+			}
+			finishedAll <- struct{}{}
+		}(i)
+	}
+	stuck := func() (int, bool, time.Duration) {
+		now := time.Now().UnixNano()
+		n, pub, longest := 0, false, time.Duration(0)
+		for i := range startedAt {
+			s := startedAt[i].Load()
+			if s == 0 || time.Duration(now-s) <= stuckAfter {
+				continue
+			}
+			if d := time.Duration(now - s); d > longest {
+				longest = d
+			}
+			if i == 0 {
+				pub = true
+			} else {
+				n++
+			}
+		}
+		return n, pub, longest
+	}
+	total := func() (t int64) {
+		for j := range calls {
+			t += calls[j].Load()
+		}
+		return
+	}
+	begin := time.Now()
+	for {
+		time.Sleep(50 * time.Millisecond)
+		if w, pub, d := stuck(); w > 0 || pub {
+			time.Sleep(200 * time.Millisecond)
+			w, pub, d = stuck()
+			what := fmt.Sprintf("the pool is blocked: %d of %d WaitMasterchainSeqno(timeout=%v) calls have not returned for over %v (longest %v); SetMasterHead stuck (Run no longer drains head updates): %v; %d pool calls had completed before",
+				w, waiters, callTimeout, stuckAfter, d.Round(time.Millisecond), pub, total())
+			stop.Store(true)
+			return true, what
+		}
+		if time.Since(begin) > stressFor {
+			// a blocked pool stops all progress at once: do not leave while nobody moves
+			before := make([]int64, len(calls))
+			for j := range calls {
+				before[j] = calls[j].Load()
+			}
+			time.Sleep(300 * time.Millisecond)
+			progressed := false
+			for j := 1; j < len(calls); j++ {
+				if calls[j].Load() != before[j] {
+					progressed = true
+				}
+			}
+			if progressed {
+				break
+			}
+		}
+	}
+	stop.Store(true)
+	for k := 0; k <= waiters; k++ {
+		select {
+		case <-finishedAll:
+		case <-time.After(stuckAfter):
+			return true, fmt.Sprintf("the pool is blocked: publisher/callers did not finish %v after being told to stop", stuckAfter)
+		}
+	}
+	return false, fmt.Sprintf("%d pool calls in %v", total(), stressFor)
+}
+
 // observation (outside the property's quantifier: pools of 1..4 connections)
 func reproEmptyPoolPanic() (panicked bool, what string) {
 	defer func() {
@@ -822,6 +1114,7 @@ var c13Repros = []c13Repro{
 	{"updatebest-sethead-deadlock-real-run", reproUpdateBestSetHeadRealRun},
 	{"subscribe-sethead-deadlock", reproSubscribeSetHead},
 	{"wait-timeout-restarts", reproTimeoutRestarts},
+	{"pool-stuck", reproPoolStuck},
 }
 
 // c13.repro: n -> 'ok | 'bad   (the model has no such behaviour: always 'ok)
